@@ -5,6 +5,7 @@ cd /repo && git diff --quiet || { echo "/repo not clean"; exit 9; }
 git -C /repo apply $S/patch.diff 2>/dev/null || (cd /repo && patch -p1 -F3 --no-backup-if-mismatch -s < $S/patch.diff) || { git -C /repo checkout -- .; echo "patch does not apply (repo has moved on?)"; exit 8; }
 trap 'git -C /repo checkout -- .' EXIT
 cd /verif
+export VERIF_EVIDENCE_DIR=/verif/.scratch/seed_evidence  # evidence/ only ever holds runs on the unchanged tree
 for C in "$@"; do
   ./check $C --tier ${TIER:-quick} > /tmp/seedrun_$(basename $S)_$C.log 2>&1; RC=$?
   echo "$(basename $S) $C exit=$RC $(grep -c '^VIOLATION' /tmp/seedrun_$(basename $S)_$C.log) violations; $(tail -1 /tmp/seedrun_$(basename $S)_$C.log)"
